@@ -253,8 +253,10 @@ func wireCase(rng *rand.Rand, topo int, ncallers, ncalls int, closeAfter time.Du
 
 type rawHandlerFunc func(ctx context.Context, args *raw.Args) (*raw.Res, error)
 
-func (f rawHandlerFunc) Handle(ctx context.Context, args *raw.Args) (*raw.Res, error) { return f(ctx, args) }
-func (f rawHandlerFunc) OnError(ctx context.Context, err error)                          {}
+func (f rawHandlerFunc) Handle(ctx context.Context, args *raw.Args) (*raw.Res, error) {
+	return f(ctx, args)
+}
+func (f rawHandlerFunc) OnError(ctx context.Context, err error) {}
 
 // listenerCase: accept loops on a wrapped listener, concurrent dialers, Close at a random moment.
 // Every dialer sends one byte: 'B' while Close has not returned, 'A' for dials started after
